@@ -52,9 +52,9 @@ def outcomes(ev, envs):
     return out
 
 
-def variants_single(lexs, items):
+def variants_single(lexs, items, gaps=None):
     n = len(lexs)
-    for g in range(n + 1):
+    for g in (range(n + 1) if gaps is None else sorted({x for x in gaps(n) if 0 <= x <= n})):
         left, right = " ".join(lexs[:g]), " ".join(lexs[g:])
         for it in items:
             yield (g, it, "glued"), left + it + right
@@ -149,6 +149,11 @@ def _work(units):
             _, name, items = u
             lexs = eb.lexemes(B[name])
             check_variants(acc, name, " ".join(lexs), variants_single(lexs, items))
+        elif u[0] == "long":
+            # very long trivia: a handful of gaps (start, after `def`, before / inside the return list, end)
+            _, name, items = u
+            lexs = eb.lexemes(B[name])
+            check_variants(acc, name, " ".join(lexs), variants_single(lexs, items, gaps=lambda n: (0, 1, 3, n // 2, n - 4, n - 1, n)))
         elif u[0] == "orig":
             _, name = u
             # the base as written (with its own comments / layout) equals its lexeme-joined form
@@ -188,7 +193,7 @@ def units(tier):
     for nme in names:
         out += [("single", nme, TRIVIA[i : i + 6]) for i in range(0, len(TRIVIA), 6)]
     for nme in ("salt", "splitter_test", "readme_cond") if tier == "quick" else names:
-        out += [("single", nme, [it]) for it in LONG_TRIVIA]
+        out += [("long", nme, [it]) for it in LONG_TRIVIA]
     if tier == "thorough":
         for nme in names:
             out += [("pair", nme, it) for it in TRIVIA]
